@@ -11,19 +11,52 @@ def record(work, vh, cases, tag="vm", maxsteps=3000, maxnext=60):
     return vc.run_restartable([vh, "vm", "-maxsteps", str(maxsteps), "-maxnext", str(maxnext)], cases, work, tag)
 
 
-def validate(work, recs, prelude, tag="vm", maxsteps=3000, timeout=1800, workers=None):
-    """Returns ({id: verdict}, TlcResult). recs must carry code/steps/next."""
-    tpath = work.path(tag + ".valid.ndjson")
-    vc.write_ndjson(tpath, recs)
-    outp = work.path(tag + ".verdicts", "v")
-    res = vc.tlc(work.dir, "ValidateVM.tla", "ValidateVM.cfg",
-                 env={"VERIF_TRACE": tpath, "VERIF_OUT": outp, "VERIF_PRELUDE": prelude, "VERIF_MAXSTEPS": str(maxsteps)},
-                 workers=workers or vc.NCPU, timeout=timeout, xmx="8g")
-    vs = {}
-    for f in glob.glob(outp + ".*"):
-        for v in vc.read_ndjson(f):
-            vs[v["id"]] = v
-    return vs, res
+class _Agg:
+    """Aggregate of several TLC runs, with the interface of vcheck.TlcResult that the callers use."""
+    def __init__(self):
+        self.rc, self.out, self.wall, self.generated, self.distinct, self.timeout = 0, "", 0.0, 0, 0, False
+
+    def add(self, res):
+        self.rc = self.rc or res.rc
+        self.out += res.out
+        self.wall += res.wall
+        self.generated += res.generated
+        self.distinct += res.distinct
+        self.timeout = self.timeout or res.timeout
+
+    def ok(self):
+        return self.rc == 0 and "Error:" not in self.out
+
+
+def validate(work, recs, prelude, tag="vm", maxsteps=3000, timeout=1800, workers=None, chunk=1200):
+    """Returns ({id: verdict}, TlcResult-like). recs must carry code/steps/next.  The records are validated in chunks (one TLC run
+    each, a few in parallel): one run over tens of thousands of recorded traces does not fit the JVM."""
+    import concurrent.futures as cf
+    chunks = [recs[i:i + chunk] for i in range(0, len(recs), chunk)] or [[]]
+    par = 1 if len(chunks) == 1 else min(4, len(chunks))
+    w = workers or max(2, vc.NCPU // par)
+
+    def one(k):
+        tpath = work.path("%s.valid%d.ndjson" % (tag, k))
+        vc.write_ndjson(tpath, chunks[k])
+        outp = work.path("%s.verdicts%d" % (tag, k), "v")
+        res = vc.tlc(work.dir, "ValidateVM.tla", "ValidateVM.cfg",
+                     env={"VERIF_TRACE": tpath, "VERIF_OUT": outp, "VERIF_PRELUDE": prelude, "VERIF_MAXSTEPS": str(maxsteps)},
+                     workers=w, timeout=timeout, xmx="8g" if par == 1 else "6g")
+        vs = {}
+        for f in glob.glob(outp + ".*"):
+            for v in vc.read_ndjson(f):
+                vs[v["id"]] = v
+        if not os.environ.get("VERIF_KEEP"):
+            os.remove(tpath)
+        return vs, res
+
+    agg, allvs = _Agg(), {}
+    with cf.ThreadPoolExecutor(max_workers=par) as ex:
+        for vs, res in ex.map(one, range(len(chunks))):
+            allvs.update(vs)
+            agg.add(res)
+    return allvs, agg
 
 
 def check(report, work, vh, prelude, cases, family="vm", tag="vm", maxsteps=3000, on_verdict=None):
